@@ -144,3 +144,21 @@ def upload_all_and_close(stream):
     data = upload_all(stream)
     stream.close()
     return data
+
+
+def pdo_set_then_get(var_a, var_b, data):
+    before = var_b.get_data()
+    var_a.set_data(data)
+    return (before, var_b.get_data(), var_a.get_data())
+
+
+def block_download_in_chunks(stream, data):
+    """the file layer above a block-download stream: offers at least 7 bytes at a time (or all that is left)"""
+    from env import rt
+    pos = 0
+    total = len(data)
+    while pos < total:
+        k = rt.choose_int("chunk", 7, 1 << 32)
+        n = stream.write(data[pos:pos + k])
+        pos = pos + n
+    stream.close()
